@@ -49,6 +49,18 @@ CLAIMED["C19"] = sync_entry("phase-structured timed waits on the virtual clock: 
                             "waiter, TIMEDOUT only after the deadline (cond part; blocking pool pops are "
                             "added with the pool ops)", "DESIGN.md section 5 (C19)")
 
+CLAIMED["C01"] = sync_entry("exactly-once start/end bookkeeping per incarnation with function, argument and "
+                            "serving-stream checks, join-after-end, empty pools at quiescence, over generated "
+                            "topologies (pool kinds, access modes, shared pools, stacked schedulers)",
+                            "DESIGN.md section 5 (C01)")
+CLAIMED["C03"] = sync_entry("join/free return only after the target's end record (state TERMINATED, handle "
+                            "NULL, payload visible, cancelled targets never run again) for all caller/target "
+                            "kind combinations; descriptor double-free visible to ASan in the no-mem-pool flavour",
+                            "DESIGN.md section 5 (C03)")
+CLAIMED["C06"] = sync_entry("at the return of ABT_xstream_join/free every unit served only by that stream has "
+                            "ended and the stream is TERMINATED; ABT_finalize runs what is left; blocked-unit "
+                            "counter never negative", "DESIGN.md section 5 (C06)")
+
 NOT_BUILT = "check not built yet in this session (see DESIGN.md section 10 for the build order)"
 
 
